@@ -121,6 +121,7 @@ def c03_plan(rng, idx, thorough=False):
         "fetch_bytes": rng.choice([150, 400, 1 << 20]),
         "tasks": tasks, "env": sorted(env_steps),
         "faults": {"p": rng.choice([0.05, 0.15, 0.3]) if faulty else 0.0, "seed": rng.randrange(1 << 30)},
+        "tie_later": rng.random() < 0.4,
     }
 
 
@@ -142,9 +143,23 @@ async def c03_main(env, cluster, probe, truth, plan, out):
 
     async def later(p, spec):
         await asyncio.sleep(spec["later_at"])
+        loop = asyncio.get_event_loop()
         for ab in parse_log(spec["later"], spec["fmt"]):
             truth.add(("t", p), ab)
-            inject(cluster, ("t", p), ab)
+            others = [pf for q in range(nparts) if q != p for pf in cluster.log(("t", q)).waiters
+                      if pf.rq.client == "c" and not pf.rq.done] if plan.get("tie_later") else []
+            if others and others[0].deadline > cluster.now():
+                # coincidence: the append lands at the very instant another broker's long-poll expires
+                fired = loop.create_future()
+
+                def act(ab=ab, fired=fired):
+                    inject(cluster, ("t", p), ab)
+                    fired.set_result(None)
+
+                loop.sim_call_at(others[0].deadline, act)
+                await fired
+            else:
+                inject(cluster, ("t", p), ab)
             await asyncio.sleep(0.05)
 
     async def env_task():
@@ -324,7 +339,128 @@ def c03_faults(cluster, plan):
 
 
 def c03_trace(env, plan):
+    if plan.get("kind") == "c03tie":
+        return run_sim(env, plan, c03tie_main, lambda cluster, truth, pl: None, max_vt=300.0)
     return run_sim(env, plan, c03_main, c03_prepare)
+
+
+# ------------------------------------------------------------------------------------ C03: exact ties
+TICK = 1.0 / (1 << 20)          # grid of the virtual clock
+
+
+def c03tie_plans(thorough=False):
+    """Deterministic schedules in which two fetch answers from two brokers reach the consumer at the
+    same virtual instant while the application is blocked in `getone()`: one answer carries the
+    record just appended, the other is (a) the empty answer of a long-poll that expires at that very
+    instant (the append is scheduled at the other broker's long-poll deadline + delta) or (b) a
+    NOT_LEADER answer provoked at the instant of the append.  Jitter 0, every partition led by its
+    own broker.  Required: the blocked `getone()` returns the record within a bounded virtual time."""
+    deltas = [0.0, TICK, -TICK, 0.001, -0.001, 2 * TICK, 0.002, -0.002]
+    plans = []
+    idx = 0
+    for nodes in ((2, 3) if thorough else (2,)):
+        for wait_ms in ((20, 50, 100, 300, 500) if thorough else (50, 300)):
+            for swap in (False, True):
+                variants = [[["empty", d] for d in deltas], [["empty", d] for d in reversed(deltas)],
+                            [["error", 0.0]], [["empty", 0.001], ["empty", -TICK], ["error", 0.0]]]
+                if not thorough and wait_ms != 50:
+                    variants = variants[:1] + variants[2:3]
+                for rounds in variants:
+                    plans.append({
+                        "kind": "c03tie", "idx": 100000 + idx, "seed": 7000 + idx, "nodes": nodes, "nparts": nodes,
+                        "reset": "earliest", "isolation": "read_uncommitted", "jitter": 0.0, "max_wait": wait_ms,
+                        "swap": swap, "rounds": rounds, "faults": {"p": 0.0, "seed": 0}, "bound": 5.0,
+                    })
+                    idx += 1
+    return plans
+
+
+async def c03tie_main(env, cluster, probe, truth, plan, out):
+    TP = env.TP
+    nparts = plan["nparts"]
+    tps = [TP("t", i) for i in range(nparts)]
+    boot = ",".join(f"b{i}:9092" for i in range(plan["nodes"]))
+    c = env.consumer.AIOKafkaConsumer(
+        bootstrap_servers=boot, client_id="c", auto_offset_reset="earliest", enable_auto_commit=False,
+        fetch_max_wait_ms=plan["max_wait"], request_timeout_ms=3000, retry_backoff_ms=50, metadata_max_age_ms=60000)
+    await c.start()
+    probe.wrap_client(c._client)
+    c.assign(tps)
+    loop = asyncio.get_event_loop()
+    next_off = [0] * nparts
+    ties = {"attempted": 0, "both_parked": 0}
+
+    def parked(p):
+        return [pf for pf in cluster.log(("t", p)).waiters if pf.rq.client == "c" and not pf.rq.done]
+
+    def append(p):
+        o = next_off[p]
+        next_off[p] += 1
+        ab = cc.AB(o, o + 1, False, [o], "v2")
+        ab.raw = cc.encode_batch(ab)
+        truth.add(("t", p), ab)
+        inject(cluster, ("t", p), ab)
+        return o
+
+    async def blocked_getone():
+        rec = {"parts": None, "got": []}
+        tok = cc.Probe.call.set(rec)
+        try:
+            m = await c.getone()
+        finally:
+            cc.Probe.call.reset(tok)
+        if [(m.partition, m.offset)] != rec["got"]:
+            out["api_mismatch"].append({"call": "getone", "returned": [(m.partition, m.offset)], "handed_out": rec["got"]})
+        return m
+
+    async def one_round(r, a, b, delta, variant):
+        g = asyncio.ensure_future(blocked_getone())
+        await asyncio.sleep(0.004 + 0.0007 * r)              # the call is now waiting for data
+        for _ in range(4000):                                # until both brokers hold a long-poll of the consumer
+            if parked(a) and parked(b):
+                ties["both_parked"] += 1
+                break
+            await asyncio.sleep(0.00025)
+        ties["attempted"] += 1
+        fired = loop.create_future()
+        info = {"round": r, "variant": variant, "data_partition": a, "other_partition": b, "delta": delta}
+
+        def act():
+            info["at"] = cluster.now()
+            info["offset"] = append(a)
+            if variant == "error":
+                # the other partition's leader moves at the same instant: its parked fetch is answered NOT_LEADER
+                cluster.set_leader(("t", b), a % plan["nodes"])
+            if not fired.done():
+                fired.set_result(None)
+
+        if variant == "empty" and parked(b):
+            when = max(parked(b)[0].deadline + delta, cluster.now())
+            loop.sim_call_at(when, act)
+        else:
+            act()
+        await fired
+        try:
+            m = await asyncio.wait_for(g, plan["bound"])
+        except asyncio.TimeoutError:
+            st = c._subscription.subscription.assignment.state_value(tps[a])
+            out["stalled"].append({**info, "partition": a, "position": st._position, "log_end": cluster.log(("t", a)).leo,
+                                   "why": f"getone() was blocked when offset {info['offset']} was appended and did not return within "
+                                          f"{plan['bound']} virtual seconds; buffered: {tps[a] in c._fetcher._records}"})
+            return False
+        if (m.partition, m.offset) != (a, info["offset"]):
+            out["unexpected"].append(f"round {r}: getone returned {(m.partition, m.offset)}, appended {(a, info['offset'])}")
+        return True
+
+    for r, (variant, delta) in enumerate(plan["rounds"]):
+        a, b = (r % nparts, (r + 1) % nparts)
+        if plan["swap"]:
+            a, b = b, a
+        if not await one_round(r, a, b, delta, variant):
+            break
+    out["ties"] = ties
+    probe.final()
+    await safe_stop(c, out)
 
 
 def judge_c03(ctx, plan, out, acc_results, holds_results):
@@ -360,7 +496,8 @@ def judge_c03(ctx, plan, out, acc_results, holds_results):
                       {**replay, "where": out.get("where")})
         clean = False
     elif out["stalled"]:
-        ctx.violation("c03:stalled", f"faults ceased, 90 virtual seconds later the consumer has not reached the log end: {out['stalled']}",
+        why = out["stalled"][0].get("why") or "faults ceased, 90 virtual seconds later the consumer has not reached the log end"
+        ctx.violation("c03:stalled", f"{why}: {out['stalled']}",
                       {**replay, "stalled": out["stalled"]})
         clean = False
     return clean
@@ -369,9 +506,9 @@ def judge_c03(ctx, plan, out, acc_results, holds_results):
 def run_c03(ctx, env, plans=None, guarded=True):
     n = 4000 if ctx.thorough else 100
     rng = ctx.rng("sim")
-    plans = plans if plans is not None else [c03_plan(rng, i, ctx.thorough) for i in range(n)]
+    plans = plans if plans is not None else c03tie_plans(ctx.thorough) + [c03_plan(rng, i, ctx.thorough) for i in range(n)]
     clean = True
-    hist = {"delivered": 0, "seeks": 0, "events": 0, "fetch_answers": 0, "oor": 0, "stalled": 0, "timeouts": 0,
+    hist = {"tie_schedules": sum(1 for p in plans if p.get("kind") == "c03tie"), "tie_rounds": 0, "delivered": 0, "seeks": 0, "events": 0, "fetch_answers": 0, "oor": 0, "stalled": 0, "timeouts": 0,
             "stop_raised_cancelled_error(C19 matter)": 0}
     unclean = 0
     chunk = 20
@@ -407,6 +544,7 @@ def run_c03(ctx, env, plans=None, guarded=True):
             nd = sum(1 for o in out["obs03"].values() for x in o if x[0] == "d")
             ns = sum(1 for o in out["obs03"].values() for x in o if x[0] in "kP")
             hist["delivered"] += nd
+            hist["tie_rounds"] += (out.get("ties") or {}).get("attempted", 0)
             hist["stop_raised_cancelled_error(C19 matter)"] += sum(1 for n in out["notes"] if "CancelledError" in n)
             hist["seeks"] += ns
             hist["events"] += sum(len(e) for e in out["events"].values())
@@ -427,7 +565,7 @@ def run_c03(ctx, env, plans=None, guarded=True):
 
 def replay(ctx, env, cases, prop, guarded=True):
     ok = True
-    sims = [c for c in cases if c.get("kind") == "c03"]
+    sims = [c for c in cases if c.get("kind") in ("c03", "c03tie")]
     if sims:
         ok = run_c03(ctx, env, sims, guarded) and ok
     return ok
@@ -578,3 +716,95 @@ def c13_expected(plan):
     if lo <= c <= hw:
         return (c, None)
     return by_policy.get(pol, (None, 1))
+
+
+# ------------------------------------------------------------------------------------ C13: staggered lookups
+LAG_COMMITTED = {0: 5, 1: 7}
+LAG_LOG = "0:5:0:0.1.2.3.4|5:10:0:5.6.7.8.9|10:15:0:10.11.12.13.14"
+
+
+def c13lag_plans(thorough=False):
+    """A group consumer with two partitions led by different brokers whose committed-offset lookups
+    are requested at different moments: the leader of one partition is unknown at assignment (-1)
+    and becomes known later, while the OffsetFetch of the first partition is still in flight (its
+    reply is delayed).  `lead` is when the leader appears: absolute (seconds after assignment) on a
+    grid across the in-flight window, or relative to the instant the delayed OffsetFetch reply
+    reaches the client (exact-tie sweep, 1 ms steps).  Required: both partitions start at their
+    committed offsets (5 and 7) within a bounded virtual time."""
+    plans = []
+    idx = 0
+    for late in (1, 0):
+        for delay in ((0.4, 0.9, 2.0) if thorough else (0.9,)):
+            step = 0.05 if thorough else 0.15
+            grid = [round(0.03 + k * step, 3) for k in range(int((delay + 0.5) / step) + 1)]
+            leads = [["abs", t] for t in grid] + [["rel", -j / 1000.0] for j in (range(-2, 14) if thorough else range(0, 10, 2))]
+            for lead in leads:
+                plans.append({"kind": "c13lag", "seed": 9000 + idx, "nodes": 2, "nparts": 2, "late": late,
+                              "delay": delay, "lead": lead, "policy": "earliest", "bound": 15.0})
+                idx += 1
+    return plans
+
+
+def c13lag_prepare(cluster, truth, plan):
+    for p in range(2):
+        for ab in parse_log(LAG_LOG, "v2"):
+            truth.add(("t", p), ab)
+            inject(cluster, ("t", p), ab)
+        cluster._group_obj("g").committed[("t", p)] = (LAG_COMMITTED[p], "")
+    cluster.set_leader(("t", plan["late"]), -1)
+
+
+async def c13lag_main(env, cluster, probe, truth, plan, out):
+    S = sim()
+    tps = [env.TP("t", 0), env.TP("t", 1)]
+    c = env.consumer.AIOKafkaConsumer(
+        bootstrap_servers="b0:9092,b1:9092", client_id="c", group_id="g", auto_offset_reset=plan["policy"],
+        enable_auto_commit=False, fetch_max_wait_ms=50, request_timeout_ms=5000, retry_backoff_ms=50,
+        metadata_max_age_ms=3000, session_timeout_ms=6000, heartbeat_interval_ms=500)
+    await c.start()
+    probe.wrap_client(c._client)
+    cluster.faults.add(S.Fault("delay", api="OffsetFetch", nth=0, seconds=plan["delay"]))
+    loop = asyncio.get_event_loop()
+    late = plan["late"]
+
+    def appear():
+        cluster.set_leader(("t", late), late)
+        out["leader_known_at"] = round(cluster.now() - t0, 6)
+
+    mode, val = plan["lead"]
+    if mode == "rel":
+        orig = cluster._h_offset_fetch
+        seen = {"n": 0}
+
+        def h_offset_fetch(rq):
+            seen["n"] += 1
+            if seen["n"] == 1:
+                # the delayed reply reaches the client at arrival + delay + one-way latency
+                loop.sim_call_at(max(cluster.now() + plan["delay"] + cluster.base_latency + val, cluster.now()), appear)
+            return orig(rq)
+
+        cluster._handlers[9] = h_offset_fetch
+    t0 = cluster.now()
+    c.assign(tps)
+    if mode == "abs":
+        loop.sim_call_at(t0 + val, appear)
+    deadline = cluster.now() + plan["bound"]
+    asg = c._subscription.subscription.assignment
+    while cluster.now() < deadline:
+        if all(asg.state_value(tp).has_valid_position for tp in tps):
+            break
+        await asyncio.sleep(0.05)
+    out["positions"] = {}
+    for tp in tps:
+        st = asg.state_value(tp)
+        out["positions"][tp.partition] = st._position
+        if st.has_valid_position:
+            v = await c.position(tp)
+            probe.o13(tp, f"p{v}")
+    out["settled_after"] = round(cluster.now() - t0, 3)
+    probe.final()
+    await safe_stop(c, out)
+
+
+def c13lag_trace(env, plan):
+    return run_sim(env, plan, c13lag_main, c13lag_prepare, max_vt=200.0)
